@@ -68,6 +68,8 @@ type ImportSpec struct {
 	Max  int64  `json:"max,omitempty"`  // tables, memories; -1 = no maximum
 	VT   byte   `json:"vt,omitempty"`   // globals
 	Mut  bool   `json:"mut,omitempty"`  // globals
+	// Shared: memories (threads proposal); needs a maximum
+	Shared bool `json:"shared,omitempty"`
 	// NoExport: the importing module does not re-export this import (everything else in its
 	// index spaces is exported).
 	NoExport bool `json:"noexport,omitempty"`
@@ -93,8 +95,9 @@ type TableSpec struct {
 }
 
 type MemSpec struct {
-	Min uint32 `json:"min"`
-	Max int64  `json:"max"`
+	Min    uint32 `json:"min"`
+	Max    int64  `json:"max"`
+	Shared bool   `json:"shared,omitempty"` // threads proposal; needs a maximum
 }
 
 // Op is one side effect executed by an identity function or by the start function, in the
@@ -115,10 +118,20 @@ type Op struct {
 	C int64  `json:"c,omitempty"`
 }
 
+// FuncSpec is an identity function: it executes Ops and returns its ID — or, if Tail is set,
+// ends with a tail call and so returns what the callee returns:
+//
+//	rcall A        return_call of function A (an import or an earlier function; same result types)
+//	ricall A B C   return_call_indirect with signature C through table A, slot B
+//
+// To keep every call chain finite, functions of signature 0 only call / tail-call functions of
+// signature 0 with a smaller index, and only functions of signature 1 use ricall, always with
+// signature 0.
 type FuncSpec struct {
-	Sig int   `json:"sig"`
-	ID  int64 `json:"id"`
-	Ops []Op  `json:"ops,omitempty"`
+	Sig  int   `json:"sig"`
+	ID   int64 `json:"id"`
+	Ops  []Op  `json:"ops,omitempty"`
+	Tail *Op   `json:"tail,omitempty"`
 }
 
 type ElemSpec struct {
@@ -420,7 +433,7 @@ func (s *ModSpec) build(nonce string) []byte {
 		case kTable:
 			desc = wasmenc.TableType(im.Elem, im.Min, im.Max)
 		case kMem:
-			desc = wasmenc.Limits(im.Min, im.Max, false)
+			desc = wasmenc.Limits(im.Min, im.Max, im.Shared && im.Max >= 0)
 		case kGlobal:
 			desc = wasmenc.GlobalType(im.VT, im.Mut)
 		}
@@ -434,6 +447,17 @@ func (s *ModSpec) build(nonce string) []byte {
 	for _, f := range s.Funcs {
 		b := wasmenc.NewB()
 		emitOps(b, f.Ops, v, ftab)
+		if tl := f.Tail; tl != nil {
+			if tl.K == "rcall" {
+				pushDummy(b, v.fsig[tl.A])
+				b.ReturnCall(uint32(tl.A))
+			} else {
+				pushDummy(b, int(tl.C))
+				b.I32Const(int32(tl.B)).ReturnCallIndirect(m.AddType(sigs[tl.C].P, sigs[tl.C].R), uint32(tl.A))
+			}
+			m.AddFunc(sigs[f.Sig].P, sigs[f.Sig].R, nil, b.Bytes())
+			continue
+		}
 		switch f.Sig {
 		case 0:
 			b.I32Const(int32(f.ID))
@@ -463,7 +487,7 @@ func (s *ModSpec) build(nonce string) []byte {
 		}
 	}
 	if s.Mem != nil {
-		m.Mems = append(m.Mems, wasmenc.Limits(s.Mem.Min, s.Mem.Max, false))
+		m.Mems = append(m.Mems, wasmenc.Limits(s.Mem.Min, s.Mem.Max, s.Mem.Shared && s.Mem.Max >= 0))
 	}
 	if v.hasMem && s.exported(kMem, 0) {
 		m.Exports = append(m.Exports, wasmenc.Export{Name: "mem", Kind: kMem, Idx: 0})
